@@ -21,13 +21,13 @@ def _tree_obs():
     return recs
 
 
-def _judge(recs, name):
+def _judge(recs, name, judge="JudgeTree"):
     d = C.fresh_dir(os.path.join(C.BUILD, "selftest_" + name))
     w = C.ObsWriter(os.path.join(d, "obs"))
     for r in recs:
         w.write(copy.deepcopy(r))
     w.close()
-    v, _ = C.run_judges("JudgeTree.tla", "JudgeTree.cfg", w.files)
+    v, _ = C.run_judges(judge + ".tla", judge + ".cfg", w.files)
     return [(x[1], x[2], x[3]) for x in v if x[0] == "VIOL"]
 
 
@@ -77,7 +77,40 @@ def run():
     ok, reached = loader.validate_trace("chain", "dA_lA", log, wd)
     if ok or reached != i + 1:
         failures.append("an altered event log was not rejected at the altered event (accepted=%s reached=%s expected=%s)" % (ok, reached, i + 1))
+    # 6. a removed hook: the same log without its "start" events is rejected
+    log = [e for e in r["log"] if e[1] != "start"]
+    ok, reached = loader.validate_trace("chain", "dA_lA", log, wd)
+    if ok:
+        failures.append("an event log without its thread-start events was accepted")
+    # 7. refresh: a real trace with refresh is accepted; without its loaded.clear event it is rejected
+    r = sched.run("chain", "dA_rA_lA_lA", [], wd, "terminology", "stale")
+    ok, _ = loader.validate_trace("chain", "dA_rA_lA_lA", r["log"], wd, "stale")
+    if not ok:
+        failures.append("a real event log with refresh was rejected by LoaderTrace")
+    ok, _ = loader.validate_trace("chain", "dA_rA_lA_lA", [e for e in r["log"] if e[1] != "loaded.clear"], wd, "stale")
+    if ok:
+        failures.append("an event log with refresh but without the loaded.clear event was accepted")
+    # 8. values: a stored value of another type than the dtype's
+    from . import values, card
+    with C.quiet():
+        good = list(values.replay({"pre": {"d": "none", "n": 0}, "op": {"name": "ctor", "d": "int", "in": "int"}}))
+    if _judge(good, "vgood", "JudgeValues"):
+        failures.append("JudgeValues reports a violation on a good observation")
+    bad = copy.deepcopy(good)
+    bad[0]["post"]["vals"][0]["pt"] = "str"
+    if not any(p == "C05" for p, c, k in _judge(bad, "vtype", "JudgeValues")):
+        failures.append("an int Property holding a str was not rejected (C05/Conforms)")
+    # 9. cardinality: a stored pair with min > max
+    with C.quiet():
+        good = list(card.replay({"pre": {"kind": "values", "card": [99, 99], "count": 2},
+                                 "op": {"name": "set", "x": {"t": "pair", "a": 1, "b": 3, "l": False}}}))
+    if _judge(good, "cgood", "JudgeCard"):
+        failures.append("JudgeCard reports a violation on a good observation")
+    bad = copy.deepcopy(good)
+    bad[0]["post"]["card"] = [3, 1]
+    if not any(p == "C09" for p, c, k in _judge(bad, "cnf", "JudgeCard")):
+        failures.append("a cardinality with min > max was not rejected (C09/CardNF)")
     for f in failures:
         print("SELFTEST-FAILURE: " + f)
-    print("selftest: %d corruption checks, %d failures" % (6, len(failures)))
+    print("selftest: %d corruption checks, %d failures" % (12, len(failures)))
     return 2 if failures else 0
